@@ -169,6 +169,16 @@ def check_headers(r: Result, where: str, get, charset) -> None:
         r.fail(f"C19:{where}:cache-control", f"cache-control {cc!r}")
 
 
+def _ctor_extras(case):
+    """Optional constructor arguments that must not change what is announced or sent."""
+    kw = {}
+    if case.get("headers") is not None:
+        kw["headers"] = dict(case["headers"])
+    if case.get("status") is not None:
+        kw["status_code"] = case["status"]
+    return kw
+
+
 def oracle_asgi(case) -> Result:
     r = Result()
     events, charset, delays, ping = case["events"], case["charset"], case["delays"], case["ping"]
@@ -183,7 +193,7 @@ def oracle_asgi(case) -> Result:
             await asyncio.sleep(case["tail_delay"])
 
     async def main():
-        resp = basgi.SendEventResponse(producer(), ping_interval=ping, charset=charset)
+        resp = basgi.SendEventResponse(producer(), ping_interval=ping, charset=charset, **_ctor_extras(case))
         return await gw.run_asgi(resp, gw.make_scope(gw.areq()))
 
     try:
@@ -216,7 +226,7 @@ def oracle_wsgi(case) -> Result:
                 time.sleep(d)
             yield ev
 
-    resp = bwsgi.SendEventResponse(producer(), ping_interval=ping, charset=charset)
+    resp = bwsgi.SendEventResponse(producer(), ping_interval=ping, charset=charset, **_ctor_extras(case))
     stalls = {int(k): v for k, v in (case.get("stalls") or {}).items()}
     run = gw.run_wsgi(resp, gw.make_environ(gw.areq()), stall_after=stalls or None)
     if stalls:
@@ -295,11 +305,12 @@ def sep_cases():
 def flow_case(draw, side):
     charset = draw(st.sampled_from(["utf-8", "utf-8", "latin-1", "gbk"]))
     events = draw(st.lists(event_strategy(charset), min_size=1, max_size=5))
+    extras = {"headers": draw(st.sampled_from([None, None, {}, {"x-extra": "1"}, {"X-Accel-Buffering": "no", "x-b": "2"}])), "status": draw(st.sampled_from([None, None, 200, 201]))}
     if side == "asgi":
         ping = draw(st.sampled_from([0.5, 1.0, 3.0]))
         delays = [draw(st.sampled_from([0, 0, 0.25, ping, ping * 1.5, ping * 2.25])) for _ in events]
-        return {"events": events, "charset": charset, "delays": delays, "ping": ping, "tail_delay": draw(st.sampled_from([0, ping * 1.5]))}
-    return {"events": events, "charset": charset, "delays": [0 for _ in events], "ping": 30}
+        return {"events": events, "charset": charset, "delays": delays, "ping": ping, "tail_delay": draw(st.sampled_from([0, ping * 1.5])), **extras}
+    return {"events": events, "charset": charset, "delays": [0 for _ in events], "ping": 30, **extras}
 
 
 @st.composite
@@ -326,6 +337,9 @@ def flow_fixed_cases():
         yield side, {"events": [{}, {"data": "after-empty"}], "charset": "utf-8", "delays": [0, 0], "ping": 30}
         yield side, {"events": [{"data": "a"}, {}, {"retry": 5}, {"data": "b", "event": "e"}], "charset": "latin-1", "delays": [0, 0, 0, 0], "ping": 30}
         yield side, {"events": [{"event": "\xe9v", "id": "\xfc", "data": "\xe0"}], "charset": "latin-1", "delays": [0], "ping": 30}
+        for headers in ({}, {"x-extra": "1"}):
+            for charset in ("utf-8", "latin-1", "gbk"):
+                yield side, {"events": [{"data": "x"}, {"event": "e", "data": "\xe9" if charset != "gbk" else "\u4e2d"}], "charset": charset, "delays": [0, 0], "ping": 30, "headers": headers}
 
 
 def oracle_atheris(case) -> Result:
